@@ -1,5 +1,6 @@
 /* blocks is unbounded (up to the object-size limit) */
 void harness(void) {
+  VERIF_PROLOGUE();
   size_t blocks;
   __CPROVER_assume(blocks <= VERIF_MAX_OBJ / 64);
   uint8_t *input = malloc(64 * blocks);
